@@ -116,6 +116,9 @@ ScalarOp(op, x) ==
         \* a scalar that float32 cannot hold (2^24+1): only for +/-, where the exact result still fits TLC's integers
         /\ (s.kind = "intbig" => op \in {"add_s", "radd_s", "sub_s", "rsub_s"})
         /\ (op = "div_s" => (s.im = 0 /\ s.re \in {-4, -2, -1, 1, 2, 4}))    \* exact in binary floating point
+        \* a scalar of tiny magnitude, re * 2^-100 (a power-of-two scaling is exact in binary floating point; the harness
+        \* multiplies the result by 2^100 before comparing): a non-zero factor is a factor, however small
+        /\ (s.kind = "tiny" => op \in {"mul_s", "rmul_s"})
         /\ LET X == Mk(x)  DX == Full(X)  c == G(s)  st == ScalarStatus(op, s)
                r1 == [p \in 1..Len(x.R) |-> IF p = 1 \/ p = Len(x.R) THEN 1 ELSE x.R[p] + 1]
                rz == [p \in 1..Len(x.R) |-> 1] IN
